@@ -1,6 +1,7 @@
 package props
 
 import (
+	"bytes"
 	"unicode/utf16"
 	"strconv"
 	"encoding/base64"
@@ -288,6 +289,54 @@ func c09Exec(c c09Case, bases []c09Base, meta *xt.Node) c09Result {
 		}
 		res.Labels = []string{"sigalg=" + c.SigAlg[strings.LastIndexAny(c.SigAlg, "#:")+1:], "key=" + c.Key}
 		record(w.Do(world.RawRequest("GET", "", w.Cfg.SSOPath(), raw, "", nil)))
+	case "siglen":
+		// signature values of every interesting LENGTH (Off octets) and filling (Sub) against the registered key, on both bindings:
+		// shorter / equal / longer than the modulus, leading zero octets, a genuine signature with octets appended or prepended
+		w := c09World(c.Key)
+		alg := c.SigAlg
+		tree := msg.Authn(msg.AuthnOpts{Issuer: msg.SPA().EntityID})
+		mkSig := func(genuine []byte) []byte {
+			switch c.Sub {
+			case 0:
+				return make([]byte, c.Off)
+			case 1:
+				return bytes.Repeat([]byte{0xff}, c.Off)
+			case 2: // genuine, cut or padded at the END to the wanted length
+				if c.Off <= len(genuine) {
+					return genuine[:c.Off]
+				}
+				return append(append([]byte{}, genuine...), bytes.Repeat([]byte{0x5a}, c.Off-len(genuine))...)
+			default: // genuine, zero octets in FRONT up to the wanted length (or cut at the front)
+				if c.Off <= len(genuine) {
+					return genuine[len(genuine)-c.Off:]
+				}
+				return append(make([]byte, c.Off-len(genuine)), genuine...)
+			}
+		}
+		res.Labels = []string{"signature-octets=" + strconv.Itoa(c.Off), fmt.Sprintf("filling=%d", c.Sub), "key=" + c.Key, "binding=" + c.Method}
+		if c.Method == "redirect" {
+			raw := msg.Redirect{XML: tree.Render(xt.Style{}), RelayState: "rs", SigAlg: alg, Key: world.SPA}.RawQuery()
+			ps := verify.SplitRawQuery(raw)
+			var parts []string
+			for _, p := range ps {
+				if p.Name == "Signature" {
+					v, _ := url.QueryUnescape(p.RawVal)
+					g, _ := base64.StdEncoding.DecodeString(v)
+					p.RawVal = msg.Pct(base64.StdEncoding.EncodeToString(mkSig(g)), msg.PctStyle{})
+				}
+				parts = append(parts, p.Name+"="+p.RawVal)
+			}
+			record(w.Do(world.RawRequest("GET", "", w.Cfg.SSOPath(), strings.Join(parts, "&"), "", nil)))
+		} else {
+			root, err := xt.Parse(msg.SignEnveloped(tree, nil, xt.Style{}, world.SPA, msg.SignOpts{Alg: alg, KeyInfo: true}))
+			if err != nil {
+				panic(err)
+			}
+			sv := root.Path("Signature", "SignatureValue")
+			g, _ := base64.StdEncoding.DecodeString(sv.TextContent())
+			sv.SetText(base64.StdEncoding.EncodeToString(mkSig(g)))
+			record(w.Do(msg.PostForm("", w.Cfg.SSOPath(), "SAMLRequest", root.Bytes(xt.Style{}), "rs", nil)))
+		}
 	case "sp-shape":
 		// registered SP metadata lacks optional parts; the (possibly edited) base message is sent by that SP
 		b := findBase()
@@ -583,6 +632,18 @@ func runC09(ctx Ctx) int {
 				for _, primed := range []string{"", "after-success"} {
 					cases = append(cases, c09Case{Fam: "env", Base: sc.Name, Key: fmt.Sprintf("%s#%d:%s", call.Op, occ[call.Op], kind), Body: primed})
 					nEnv++
+				}
+			}
+		}
+	}
+	// signature-value lengths x fillings x algorithms x registered key types x bindings
+	for _, n := range []int{0, 1, 2, 31, 32, 33, 127, 128, 129, 255, 256, 257, 258, 383, 384, 385, 511, 512, 513, 1024, 4096, 65537} {
+		for fill := 0; fill < 4; fill++ {
+			for _, a := range []string{verify.AlgRSASHA256, verify.AlgRSASHA1} {
+				for _, k := range c09KeyTypes {
+					for _, b := range []string{"redirect", "post"} {
+						cases = append(cases, c09Case{Fam: "siglen", Off: n, Sub: fill, SigAlg: a, Key: k, Method: b})
+					}
 				}
 			}
 		}
